@@ -3,7 +3,7 @@ CONSTANTS
   NMin = 2
   NMax = 6
   IdealMaxN = 4
-  Vals = {0, 1, 3, 4}
+  Vals = {0, 1, 3}
 INVARIANT RelationsWellFormed
 INVARIANT Partition
 INVARIANT BinMatches
